@@ -59,6 +59,16 @@ class _Guarded:
     def __init__(self, mod, pid):
         self._mod = mod
         self.execute = core.guarded(pid, mod.execute, getattr(mod, "RUN_WALL_S", None))
+        gb = getattr(mod, "MEM_LIMIT_GB", None)
+        if gb:
+            # address-space limit of this process (and of the workers forked from it): a parser that allocates gigabytes for
+            # an input of a few hundred kilobytes gets a MemoryError, which the property's check reports like any other
+            # undocumented exception
+            import resource
+            soft, hard = resource.getrlimit(resource.RLIMIT_AS)
+            want = int(gb) << 30
+            if soft == resource.RLIM_INFINITY or soft > want:
+                resource.setrlimit(resource.RLIMIT_AS, (want, hard))
 
     def __getattr__(self, name):
         return getattr(self._mod, name)
